@@ -28,6 +28,10 @@ random = _Rng()
 _Rng.r = _random_mod
 
 
+# element types of array-valued coefficients (the small integers used are exact in all of them)
+DTYPES = ['float64', 'float64', 'float32', 'float16', 'int64', 'int32', 'longdouble']
+
+
 # ---------- random trees (tagged tuples) ----------
 def rand_mv(an):
     canon = CANON[an]
@@ -47,9 +51,9 @@ def rand_mv(an):
     if kind in ('array', 'ndarray'):
         n = random.randint(1, 3) if kind == 'array' else random.randint(1, 3)
         vals = [[random.randint(-9, 9) for _ in range(n)] for _ in keys]
-        return ('mv', an, keys, vals, True, 'nparr' if kind == 'array' else 'nd')
+        return ('mv', an, keys, vals, True, ('nparr' if kind == 'array' else 'nd') + ':' + random.choice(DTYPES))
     vals = [[random.randint(-9, 9)] for _ in keys]
-    return ('mv', an, keys, vals, False, 'nd1' if kind == 'nd1' else 'list')
+    return ('mv', an, keys, vals, False, 'nd1:' + random.choice(DTYPES) if kind == 'nd1' else 'list')
 
 
 def rand_subj(an, depth):
@@ -78,14 +82,16 @@ def to_py(t):
     if tag == 'mv':
         _, an, keys, vals, arr, kind = t
         alg = ALGS[an]
+        kind, _, dt = kind.partition(':')
+        dt = np.dtype(dt or 'float64')
         if kind == 'list':
             v = [c[0] for c in vals]
         elif kind == 'nd1':
-            v = np.array([float(c[0]) for c in vals])
+            v = np.array([c[0] for c in vals], dtype=dt)
         elif kind == 'nparr':
-            v = [np.array(c) for c in vals]
+            v = [np.array(c, dtype=dt) for c in vals]
         else:
-            v = np.array(vals, dtype=float)
+            v = np.array(vals, dtype=dt)
         return MultiVector.fromkeysvalues(alg, tuple(keys), v)
     if tag == 'list':
         return [to_py(x) for x in t[1]]
